@@ -264,6 +264,154 @@ def rewrite_labelled_blocks(text, types=None):
     return text, done
 
 
+ENUM_FOR_RX = re.compile(r"\bfor\s*\(\s*(\w+)\s*,\s*")
+
+
+def rewrite_enumerate_for(text):
+    """T15: `for (i, PAT) in EXPR.enumerate() { B }`  ==>
+            `{ let mut i__vx: usize = 0; for PAT in EXPR { let i = i__vx; i__vx += 1; B } }`
+    (Iterator::enumerate yields the items of EXPR paired with a counter starting at 0; the adaptor itself cannot be given
+    a specification in the installed Verus).  Returns (text, count)."""
+    c = 0
+    pos = 0
+    while True:
+        masked = mask(text)
+        m = ENUM_FOR_RX.search(masked, pos)
+        if not m:
+            break
+        idx = m.group(1)
+        # pattern up to the matching ')'
+        op = masked.index('(', m.start())
+        cl = match_close(masked, op)
+        pat = text[m.end():cl].strip()
+        mm = re.compile(r"\s*in\b").match(masked, cl + 1)
+        if not mm:
+            pos = m.end(); continue
+        # body '{' at depth 0
+        k, depth = mm.end(), 0
+        while k < len(masked):
+            ch = masked[k]
+            if ch in '([':
+                depth += 1
+            elif ch in ')]':
+                depth -= 1
+            elif ch == '{' and depth == 0:
+                break
+            k += 1
+        expr = text[mm.end():k].rstrip()
+        mexpr = masked[mm.end():k].rstrip()
+        em = re.search(r"\s*\.\s*enumerate\s*\(\s*\)$", mexpr)
+        if not em:
+            pos = m.end(); continue
+        expr = expr[:em.start()]
+        bclose = match_close(masked, k)
+        ctr = idx + '__vx'
+        new = ('{ /*vx:T15 enumerate()*/ let mut %s: usize = 0;\nfor %s in %s {\n let %s = %s; %s += 1;' % (ctr, pat, expr.strip(), idx, ctr, ctr)
+               + text[k + 1:bclose] + '} }')
+        text = text[:m.start()] + new + text[bclose + 1:]
+        c += 1
+        pos = m.start() + 10
+    return text, c
+
+
+def _receiver_start(masked, dot):
+    """start of the postfix expression that ends right before the '.' at `dot` (method-call receiver)"""
+    k = dot - 1
+    while True:
+        while k >= 0 and masked[k].isspace():
+            k -= 1
+        if k < 0:
+            return 0
+        ch = masked[k]
+        if ch in ')]':
+            # jump to the matching opener
+            depth, j = 0, k
+            pairs = {')': '(', ']': '['}
+            while j >= 0:
+                if masked[j] in ')]}':
+                    depth += 1
+                elif masked[j] in '([{':
+                    depth -= 1
+                    if depth == 0:
+                        break
+                j -= 1
+            k = j - 1
+            continue
+        if ch == '?':
+            k -= 1
+            continue
+        if ch.isalnum() or ch == '_' or ch == '#':
+            while k >= 0 and (masked[k].isalnum() or masked[k] in '_#'):
+                k -= 1
+            # path / field / method separators keep the expression going
+            j = k
+            while j >= 0 and masked[j].isspace():
+                j -= 1
+            if j >= 0 and masked[j] == '.':
+                k = j - 1
+                continue
+            if j >= 1 and masked[j - 1:j + 1] == '::':
+                k = j - 2
+                continue
+            return k + 1
+        if ch == '>' :
+            # turbofish / generic args `::<T>` : skip to matching '<'
+            depth, j = 0, k
+            while j >= 0:
+                if masked[j] == '>':
+                    depth += 1
+                elif masked[j] == '<':
+                    depth -= 1
+                    if depth == 0:
+                        break
+                j -= 1
+            k = j - 1
+            continue
+        return k + 1
+
+
+def rewrite_method_chain(text, fn_name, methods):
+    """T16: RECV.m1(A1).m2(A2)..  ==>  crate::<fn_name>(RECV, A1, A2, ..)   (empty argument lists contribute nothing).
+    <fn_name> is a TRUSTED wrapper in /verif/prelude whose body is literally `recv.m1(a1).m2(a2)..` (same executable
+    semantics by construction) and whose `ensures` is the assumed specification of that std iterator pipeline: the
+    installed Verus cannot attach a specification to provided Iterator methods directly.  Returns (text, count)."""
+    c = 0
+    start = 0
+    rx = re.compile(r"\.\s*" + re.escape(methods[0]) + r"\s*(?:::\s*<[^>]*>\s*)?\(")
+    while True:
+        masked = mask(text)
+        m = rx.search(masked, start)
+        if not m:
+            break
+        dot = m.start()
+        args = []
+        k = m.end() - 1
+        ok = True
+        endpos = None
+        for mi, meth in enumerate(methods):
+            cl = match_close(masked, k)
+            a = text[k + 1:cl].strip()
+            if a:
+                args.append(a)
+            endpos = cl + 1
+            if mi + 1 < len(methods):
+                mm = re.compile(r"\s*\.\s*" + re.escape(methods[mi + 1]) + r"\s*(?:::\s*<[^>]*>\s*)?\(").match(masked, cl + 1)
+                if not mm:
+                    ok = False
+                    break
+                k = mm.end() - 1
+        if not ok:
+            start = m.end()
+            continue
+        rs = _receiver_start(masked, dot)
+        recv = text[rs:dot].strip()
+        new = 'crate::%s(%s)' % (fn_name, ', '.join([recv] + args))
+        text = text[:rs] + new + text[endpos:]
+        c += 1
+        start = rs + len(new)
+    return text, c
+
+
 def module_span(text, modpath):
     """(lo, hi) of the body of nested module a::b::c in text"""
     masked = mask(text)
@@ -549,6 +697,24 @@ def inline_crate(repo, arg, subs, unit):
                 from splice import LostAnchor
                 raise LostAnchor('labelled_blocks: no `let v = \'label: { .. }` found')
             t = dict(rule='T10', what="labelled block with `break 'l value` -> one-iteration labelled loop with deferred initialisation", blocks=done, item=rec['item'])
+            rec['transformations'].append(t)
+            unit.transforms.append(t)
+        elif w[0] == 'wrap_chain':
+            a_ = w[1].split()
+            fn_name, methods = a_[0], a_[1].split(',')
+            text, c = rewrite_method_chain(text, fn_name, methods)
+            if c == 0:
+                from splice import LostAnchor
+                raise LostAnchor('wrap_chain: no .%s found' % '().'.join(methods))
+            t = dict(rule='T16', what='RECV.%s(..) -> crate::%s(RECV, ..): trusted wrapper whose body is that same call (assumed std iterator contract)' % ('(..).'.join(methods), fn_name), count=c, item=rec['item'])
+            rec['transformations'].append(t)
+            unit.transforms.append(t)
+        elif w[0] == 'enumerate_for':
+            text, c = rewrite_enumerate_for(text)
+            if c == 0:
+                from splice import LostAnchor
+                raise LostAnchor('enumerate_for: no `for (i, x) in e.enumerate()` found')
+            t = dict(rule='T15', what='for (i, x) in e.enumerate() { B } -> counter variable incremented at the top of the body', count=c, item=rec['item'])
             rec['transformations'].append(t)
             unit.transforms.append(t)
         elif w[0] == 'format_concat':
